@@ -620,7 +620,51 @@ pub fn run(args: &Args) -> ! {
     for c in ["mutants/outcome/ok", "mutants/outcome/rejected", "mutants/sane-model-checked", "histories/outcome/ok"] {
         ctx.require_class(c);
     }
+    if ctx.tier() == crate::engine::Tier::Thorough {
+        fuzz_campaign(&ctx);
+    }
     ctx.finish()
+}
+
+/// thorough only: coverage-guided byte-level mutation of model JSON texts (any number of simultaneous edits)
+fn fuzz_campaign(ctx: &Ctx) {
+    use crate::fuzz::{self, Campaign};
+    use crate::gen::model::{self, Params};
+    ctx.rule("fuzz:model_json (thorough): libFuzzer campaign (16 processes x fixed -runs, -seed from the seed, fresh corpus seeded with generated closed and open models and the smallest shipped model; dictionary = identifiers of a shipped model) over Model::from_json -> energy_indicators -> as_json; a panic, a hang (60 s, confirmed alone at 180 s) or process death is a violation; every 64th computed model the process recomputes cubo.json and must get its baseline. Non-trivial: the text loaded as a model and the indicators were computed.");
+    if !fuzz::build(ctx) {
+        return;
+    }
+    let mut seeds: Vec<(String, Vec<u8>)> = vec![];
+    for (k, open) in [false, true].into_iter().enumerate() {
+        let plans = fuzz::sample_values(&model::plan(Params { open, max_spaces: 2, ..Params::default() }), 12, ctx.seed(), &format!("C14/fuzz-seeds/{}", k));
+        for (i, pl) in plans.iter().enumerate() {
+            if let Ok(j) = model::build(pl).as_json() {
+                seeds.push((format!("generated-{}-{}", if open { "open" } else { "closed" }, i), j.into_bytes()));
+            }
+        }
+    }
+    let cubo = std::fs::read_to_string("/repo/bemodel/tests/data/cubo.json").unwrap_or_default();
+    let dict = fuzz::tokens_of(&[cubo.clone(), seeds.first().map(|s| String::from_utf8_lossy(&s.1).to_string()).unwrap_or_default()], 300);
+    seeds.push(("cubo.json".into(), cubo.into_bytes()));
+    fuzz::run(
+        ctx,
+        &Campaign {
+            sub: "fuzz:model_json",
+            target: "model_json",
+            sig_prefix: "C14:indicators:",
+            procs: 16,
+            runs_per_proc: 150_000,
+            max_len: 150_000,
+            only_ascii: true,
+            seeds,
+            dict,
+            timeout_s: 60,
+            nontrivial_classes: &["loaded"],
+        },
+    );
+    for c in ["fuzz:model_json/loaded", "fuzz:model_json/rejected", "fuzz:model_json/good-model-recheck"] {
+        ctx.require_class(c);
+    }
 }
 
 pub fn replay_one(ctx: &Ctx, doc: &ReplayDoc) {
